@@ -10,6 +10,7 @@ use scope::ScopeKind;
 use syntax::{
     ast::{self, AstNode},
     parser::TextRange,
+    syntax_kind::SyntaxKind,
     SyntaxNodePtr,
 };
 
@@ -319,8 +320,16 @@ impl Indexable for ast::If {
     type Output = ();
     fn index(&self, ctx: &mut IndexCtx) -> Option<Self::Output> {
         self.condition()?.index(ctx);
-        self.then_body()?.index(ctx);
-        self.else_body()?.index(ctx);
+        // each branch is a scope of its own for local variables
+        let then_body = self.then_body()?;
+        ctx.scopes.push(ScopeKind::Block);
+        then_body.index(ctx);
+        ctx.scopes.pop();
+        if let Some(else_body) = self.else_body() {
+            ctx.scopes.push(ScopeKind::Block);
+            else_body.index(ctx);
+            ctx.scopes.pop();
+        }
         None
     }
 }
@@ -329,7 +338,19 @@ impl Indexable for ast::Let {
     type Output = ();
     fn index(&self, ctx: &mut IndexCtx) -> Option<Self::Output> {
         self.let_list()?.index(ctx);
-        self.statement_list()?.index(ctx);
+        let statement_list = self.statement_list()?;
+        // a group let (`let ... in { ... }`) is a scope of its own for local variables
+        let is_group = statement_list
+            .syntax()
+            .first_token()
+            .is_some_and(|token| token.kind() == SyntaxKind::LBrace);
+        if is_group {
+            ctx.scopes.push(ScopeKind::Block);
+        }
+        statement_list.index(ctx);
+        if is_group {
+            ctx.scopes.pop();
+        }
         None
     }
 }
